@@ -14,9 +14,7 @@ CHECKS = {
  'C12': dict(text="bounded: parser::parse executed symbolically from MIR on every byte string (all 256 values per byte) up to the stated length, from the root and inner start nodes of two macro-built trees; obligations O1-O5 decided by z3 per leaf; nothing claimed beyond the length bound",
              note=TRUST + "no stubs for parse", design="DESIGN.md section 5 C12"),
 }
-NA = {
- 'C14': "host code of a proc-macro (String/HashMap/syn inside rustc) whose observable is a compile error: not encodable for a solver within reach (Kani did not finish a concrete Command::try_from in 10 min); needs compile-fail crates, a different technique (DESIGN.md section 6)",
-}
+NA = {}
 extra = {}
 p = os.path.join(V, 'tools', 'manifest_extra.json')
 if os.path.exists(p):
@@ -26,7 +24,7 @@ NA.update(extra.get('na', {}))
 
 m = {
  "version": 1,
- "setup_cmd": "cd /verif && mkdir -p work evidence replays && CARGO_NET_OFFLINE=true python3-vt -m mirsym.build --release --std",
+ "setup_cmd": "cd /verif && mkdir -p work evidence replays && CARGO_NET_OFFLINE=true python3-vt -m mirsym.build --release --std --macros",
  "hooks": {"guard": "microscpi_verif", "enable": "none needed: MIR exposes private functions; the generated device crate and the Kani crate use the public API only",
            "baseline_off_cmd": "cd /repo && cargo test --workspace --no-fail-fast --offline", "source_commits": [], "add_only": True},
  "engines": [{"name": "mirsym", "path": "/verif/mirsym", "serves_properties": sorted(k for k, c in CHECKS.items() if c.get('engine', 'mirsym') == 'mirsym'),
